@@ -61,6 +61,11 @@ Example W_parity : crossing_odd (map swap (close_poly Wpoly)) (swap (2, 1 # 8)) 
                    crossing_odd (map swap (close_poly Wpoly)) (swap (2, 1)) = false.
 Proof. vm_compute. split; reflexivity. Qed.
 
+(* the W polygon with its ordinates multiplied by 2^-40: the segments scale along, the selection of the scaled value is the same *)
+Example W_scaled_segments : segments (map (scale_y (1 # 1099511627776)) Wpoly) 1 = [(0, 3 # 1099511627776)].
+Proof. vm_compute. reflexivity. Qed.
+Example W_scale_hyp : 0 < 1 # 1099511627776. Proof. reflexivity. Qed.
+
 (* wire: x categorical with 3 labels, y numeric, rotated rectangle, three elements *)
 Example wire_run :
   run_case (T 1 [T 0 [leaf 0; leaf 1];
